@@ -1,2 +1,3 @@
 /- All raw reader models (C07, parser part). -/
 import Iodata.Model.Rd.Xyz
+import Iodata.Model.Rd.Sdf
